@@ -59,8 +59,23 @@ def contexts(d: str) -> list[tuple[str, str, str, bool]]:
         elif tt == TokenType.HEREDOC_STRING:
             out.append((f"heredoc[{s}]", s + e + "a", "b" + s + e + " c", False))
             out.append((f"heredoc-tag[{s}]", s + "t", e + "a" + s + "t" + e + " c", False))
+            # a would-be tag in the middle of a statement: a hole that makes it invalid (white-space, line break, digit)
+            # forces the scanner to step back
+            out.append((f"heredoc-tag-mid[{s}]", "x " + s + "a", "b" + e + " y", False))
         else:
             out.append((f"fmt[{s}]", s + "a", "b" + e + " c", False))
+    # end of input right after the hole: every scanning loop has its own end-of-input branch
+    out.append(("eof-number-exp", "1e", "", True))
+    out.append(("eof-number", "1.", "", False))
+    q0s, q0e = next(iter(c["quotes"].items()))
+    out.append((f"eof-quote[{q0s}]", q0s + "a", "", True))
+    i0s, i0e = next(iter(c["identifiers"].items()))
+    out.append((f"eof-ident[{i0s}]", i0s + "a", "", False))
+    for s_, e_ in c["comments"].items():
+        if e_:
+            out.append((f"eof-comment[{s_}]", "x " + s_ + " a", "", s_ == "/*"))
+            break
+    out.append(("eof-var", "a", "", False))
     kw = sorted(k for k in c["keywords"] if " " in k and all(w.isalpha() for w in k.split(" ")))
     if kw:
         pick = "GROUP BY" if "GROUP BY" in kw else kw[0]
